@@ -17,7 +17,9 @@ var MaxIntrospectionDepth = Rule{
 		observers.OnField(func(walker *Walker, field *ast.Field) {
 			if field.Name == "__schema" || field.Name == "__type" {
 				visitedFragments := make(map[string]bool)
-				if checkDepthField(field, visitedFragments, 0) {
+				// fragment name -> greatest depth at which it was found not to exceed the limit
+				cleared := make(map[string]int)
+				if checkDepthField(field, visitedFragments, cleared, 0) {
 					addError(
 						Message(`Maximum introspection depth exceeded`),
 						At(field.Position),
@@ -29,20 +31,20 @@ var MaxIntrospectionDepth = Rule{
 	},
 }
 
-func checkDepthSelectionSet(selectionSet ast.SelectionSet, visitedFragments map[string]bool, depth int) bool {
+func checkDepthSelectionSet(selectionSet ast.SelectionSet, visitedFragments map[string]bool, cleared map[string]int, depth int) bool {
 	for _, child := range selectionSet {
 		if field, ok := child.(*ast.Field); ok {
-			if checkDepthField(field, visitedFragments, depth) {
+			if checkDepthField(field, visitedFragments, cleared, depth) {
 				return true
 			}
 		}
 		if fragmentSpread, ok := child.(*ast.FragmentSpread); ok {
-			if checkDepthFragmentSpread(fragmentSpread, visitedFragments, depth) {
+			if checkDepthFragmentSpread(fragmentSpread, visitedFragments, cleared, depth) {
 				return true
 			}
 		}
 		if inlineFragment, ok := child.(*ast.InlineFragment); ok {
-			if checkDepthSelectionSet(inlineFragment.SelectionSet, visitedFragments, depth) {
+			if checkDepthSelectionSet(inlineFragment.SelectionSet, visitedFragments, cleared, depth) {
 				return true
 			}
 		}
@@ -50,7 +52,7 @@ func checkDepthSelectionSet(selectionSet ast.SelectionSet, visitedFragments map[
 	return false
 }
 
-func checkDepthField(field *ast.Field, visitedFragments map[string]bool, depth int) bool {
+func checkDepthField(field *ast.Field, visitedFragments map[string]bool, cleared map[string]int, depth int) bool {
 	if field.Name == "fields" ||
 		field.Name == "interfaces" ||
 		field.Name == "possibleTypes" ||
@@ -60,10 +62,10 @@ func checkDepthField(field *ast.Field, visitedFragments map[string]bool, depth i
 			return true
 		}
 	}
-	return checkDepthSelectionSet(field.SelectionSet, visitedFragments, depth)
+	return checkDepthSelectionSet(field.SelectionSet, visitedFragments, cleared, depth)
 }
 
-func checkDepthFragmentSpread(fragmentSpread *ast.FragmentSpread, visitedFragments map[string]bool, depth int) bool {
+func checkDepthFragmentSpread(fragmentSpread *ast.FragmentSpread, visitedFragments map[string]bool, cleared map[string]int, depth int) bool {
 	fragmentName := fragmentSpread.Name
 	if visited, ok := visitedFragments[fragmentName]; ok && visited {
 		// Fragment cycles are handled by `NoFragmentCyclesRule`.
@@ -80,9 +82,21 @@ func checkDepthFragmentSpread(fragmentSpread *ast.FragmentSpread, visitedFragmen
 	// take a mutable approach for efficiency's sake. Importantly visiting a
 	// fragment twice is fine, so long as you don't do one visit inside the
 	// other.
+	// A fragment that stayed within the limit when entered at this depth or deeper
+	// need not be expanded again: without this, fragments spread several times at
+	// every level are expanded exponentially often.
+	if d, ok := cleared[fragmentName]; ok && depth <= d {
+		return false
+	}
 	visitedFragments[fragmentName] = true
 	defer delete(visitedFragments, fragmentName)
-	return checkDepthSelectionSet(fragment.SelectionSet, visitedFragments, depth)
+	if checkDepthSelectionSet(fragment.SelectionSet, visitedFragments, cleared, depth) {
+		return true
+	}
+	if d, ok := cleared[fragmentName]; !ok || depth > d {
+		cleared[fragmentName] = depth
+	}
+	return false
 }
 
 func init() {
